@@ -366,8 +366,10 @@ def extract_input(world, m):
 
 
 def admissible(world, inp):
-    """documented modelling assumptions: balances <= 2^128"""
-    return all(v <= (1 << 128) for v in inp.get("bal", {}).values())
+    """documented modelling assumption: every balance stays <= 2^128 (MAX_ETH) - also after transfers,
+    which halmos expresses as a path condition on the updated balance; inputs whose total supply
+    exceeds 2^128 can violate it in the middle of a run and are outside the modelled domain"""
+    return sum(inp.get("bal", {}).values()) <= (1 << 128)
 
 
 def check_world(world, inputs, args=None, opts=None, rng=None, guided=True):
